@@ -271,6 +271,13 @@ def run_property(prop_id: str, tier: str, seed: int, procs: int | None = None) -
             outside_claim=meta.get("outside", []), engine=meta.get("engine", "symx path-forking executor over z3 " + z3.get_version_string()),
             status=status, errors=(errors + val_errors + spurious)[:20], stopped_early_on_violation=early_stop,
             known_findings_hit=sorted(known_hits), exhaustive=False,
+            explanation="states = completed symbolic paths (each stands for every input satisfying its path condition); transitions = decisions taken (solver-checked "
+                        "branches, concretisation forks, solver-free choices) plus one terminal step per path; obligations are discharged per path by z3 (unsat of path "
+                        "condition and negated obligation); traces_validated_against_impl = models of accepted paths (and pinned concrete inputs) re-run on the unpatched "
+                        "repository code with real numpy and found to agree",
+            trusted_base=["z3 " + z3.get_version_string(), "CPython", "numpy indexing machinery under the shim", "symx shim element semantics (cross-checked per run)",
+                          "hand-written oracles in props/ and symx/oracles.py"] + (["CrossHair 0.0.110"] if prop_id == "C07" else []),
+            history_replays=n_hist,
         ),
         assumptions=meta.get("assumptions", []),
         wall_s=round(wall, 2), violations=len(violations),
